@@ -236,7 +236,7 @@ def stepXg (srt : Sorter) (sp : Spec) (w : World) : Event → World
           else checkAffected sp w t
         else
           if r.state == .SUCCESS then w
-          else if isCompleted r.state then w
+          else if isCompleted r.state then checkAffected sp w t
           else if r.state == .RUNNING && hasLiveAction w t then w
           else { w with tasks := setTask w.tasks { r with state := .RUNNING, processed := false },
                         pending := w.pending ++ [.postRunAction t] }
